@@ -10,5 +10,6 @@ with open(os.path.join(ROOT, "seeded", "README.md"), "w") as fh:
     fh.write("# Independently seeded breaking changes\n\nEach directory holds `patch.diff` (apply with `git -C /repo apply`, undo with `git -C /repo checkout -- .`), the author's demonstration `demo.py` and `meta.json`.  None of them is ever committed in /repo.\n\n")
     fh.write("| id | property | change | needs, to manifest | confirmed (suite green, demo fails/passes) | caught by (quick tier) |\n|---|---|---|---|---|---|\n")
     for d in rows:
-        fh.write(f"| {d['id']} | {d['property']} | {d['change']} | {d['needs']} | {d['confirmed']} | {d['caught_by']} |\n")
+        e = lambda t: str(t).replace('|', '\\|').replace('\n', ' ')
+        fh.write(f"| {d['id']} | {d['property']} | {e(d['change'])} | {e(d['needs'])} | {e(d['confirmed'])} | {e(d['caught_by'])} |\n")
 print(len(rows), "entries")
